@@ -184,6 +184,8 @@ impl ServerState {
         let rx = self.cb_rx.clone();
         let last_compilation_state = self.last_compilation_state.clone();
         std::thread::spawn(move || {
+            #[cfg(fuellabs_sway_verif)]
+            crate::verif::point("W", "recv", 0);
             while let Ok(msg) = rx.recv() {
                 match msg {
                     TaskMessage::CompilationContext(ctx) => {
@@ -213,7 +215,11 @@ impl ServerState {
                         }
 
                         // Set the is_compiling flag to true so that the wait_for_parsing function knows that we are compiling
+                        #[cfg(fuellabs_sway_verif)]
+                        crate::verif::point("W", "set_ic", ctx.version.map_or(-1, i64::from));
                         is_compiling.store(true, Ordering::SeqCst);
+                        #[cfg(fuellabs_sway_verif)]
+                        crate::verif::point("W", "compile", 0);
                         match session::parse_project(
                             uri,
                             &engines_clone,
@@ -240,10 +246,14 @@ impl ServerState {
                                                 &mut engines_clone,
                                             );
                                         }
+                                        #[cfg(fuellabs_sway_verif)]
+                                        crate::verif::point("W", "lcs", 1);
                                         *last_compilation_state.write() =
                                             LastCompilationState::Success;
                                     }
                                     None => {
+                                        #[cfg(fuellabs_sway_verif)]
+                                        crate::verif::point("W", "lcs", 2);
                                         *last_compilation_state.write() =
                                             LastCompilationState::Failed;
                                     }
@@ -251,19 +261,39 @@ impl ServerState {
                             }
                             Err(err) => {
                                 tracing::error!("{}", err.to_string());
+                                #[cfg(fuellabs_sway_verif)]
+                                crate::verif::point(
+                                    "W",
+                                    "lcs",
+                                    if err.to_string().contains("compilation was retriggered") {
+                                        0
+                                    } else {
+                                        3
+                                    },
+                                );
                                 *last_compilation_state.write() = LastCompilationState::Failed;
                             }
                         }
 
                         // Reset the flags to false
+                        #[cfg(fuellabs_sway_verif)]
+                        crate::verif::point("W", "clr_ic", 0);
                         is_compiling.store(false, Ordering::SeqCst);
+                        #[cfg(fuellabs_sway_verif)]
+                        crate::verif::point("W", "clr_rt", 0);
                         retrigger_compilation.store(false, Ordering::SeqCst);
 
                         // Make sure there isn't any pending compilation work
+                        #[cfg(fuellabs_sway_verif)]
+                        crate::verif::point("W", "chk_empty", 0);
                         if rx.is_empty() {
                             // finished compilation, notify waiters
+                            #[cfg(fuellabs_sway_verif)]
+                            crate::verif::point("W", "notify", 0);
                             finished_compilation.notify_waiters();
                         }
+                        #[cfg(fuellabs_sway_verif)]
+                        crate::verif::point("W", "recv", 0);
                     }
                     TaskMessage::Terminate => {
                         // If we receive a terminate message, we need to exit the thread
@@ -306,18 +336,32 @@ impl ServerState {
         loop {
             // Check both the is_compiling flag and the last_compilation_state.
             // Wait if is_compiling is true or if the last_compilation_state is Uninitialized.
+            #[cfg(fuellabs_sway_verif)]
+            crate::verif::point("Q", "check", 0);
             if !self.is_compiling.load(Ordering::SeqCst)
                 && *self.last_compilation_state.read() != LastCompilationState::Uninitialized
             {
                 // compilation is finished, lets check if there are pending compilation requests.
+                #[cfg(fuellabs_sway_verif)]
+                crate::verif::point("Q", "is_empty", 0);
                 if self.cb_rx.is_empty() {
                     // no pending compilation work, safe to break.
                     break;
                 }
             }
             // We are still compiling, lets wait to be notified.
+            #[cfg(fuellabs_sway_verif)]
+            crate::verif::point("Q", "await", 0);
             self.finished_compilation.notified().await;
+            #[cfg(fuellabs_sway_verif)]
+            crate::verif::point("Q", "woke", 0);
         }
+    }
+
+    /// Verification hook: number of compilation requests currently queued in the channel.
+    #[cfg(fuellabs_sway_verif)]
+    pub fn verif_pending_requests(&self) -> usize {
+        self.cb_rx.len()
     }
 
     pub fn shutdown_server(&self) -> jsonrpc::Result<()> {
